@@ -70,7 +70,12 @@ class CallMixin:
     def eval_call(self, node: ast.Call, fr: Frame):
         f = self.eval(node.func, fr)
         args = []
+        is_exc = inspect.isclass(f) and issubclass(f, BaseException)
         for a in node.args:
+            if is_exc and isinstance(a, ast.JoinedStr):
+                # text of an exception message: kept opaque, not rendered (stated in DESIGN 2.1)
+                args.append(Opaque('exception message'))
+                continue
             if isinstance(a, ast.Starred):
                 args.extend(self.iter_concrete(self.eval(a.value, fr)))
             else:
